@@ -23,14 +23,18 @@
 (***************************************************************************)
 EXTENDS Fen, Zobrist, Eval, Show, Json, IOUtils
 
+\* the design-level model of the Game object, in its repaired form
+Eng == INSTANCE Engine WITH Rescore <- TRUE
+
 Rec == ndJsonDeserialize(IOEnv.TRACE)
 
 VARIABLES l,      \* index of the next event
           pos,    \* model position (= projection of the last observation)
           prev,   \* last raw observation
           stk,    \* raw observations saved at each push not yet taken back
-          recs    \* expected move-record token sets of the moves played into the record
-vars == <<l, pos, prev, stk, recs>>
+          recs,   \* expected move-record token sets of the moves played into the record
+          eng     \* design level: [e |-> Engine.tla state stepped along the trace, u |-> undo stack, ok |-> in step]
+vars == <<l, pos, prev, stk, recs, eng>>
 
 ToSet(q) == { q[i] : i \in DOMAIN q }
 
@@ -67,7 +71,16 @@ Diff(a, b) == [k \in { k \in DOMAIN a : a[k] # b[k] } |-> <<a[k], b[k]>>]
 Obs3(o) == [b |-> o.b, stm |-> o.stm, cast |-> ToSet(o.cast), ep |-> o.ep, len |-> o.len,
             wk |-> o.wk, bk |-> o.bk, h |-> o.h, sc |-> o.sc]
 
-Init == l = 1 /\ pos = NoPos /\ prev = NoObs /\ stk = << >> /\ recs = << >>
+NoEng == [e |-> Eng!Blank, u |-> << >>, ok |-> FALSE]
+\* design-level conformance: the Engine.tla state must project to the raw observation (never a verdict)
+EngDrift(x, o, what) ==
+  IF ~x.ok THEN {}
+  ELSE LET m == Eng!EngObs(x.e)
+           got == [b |-> [s \in Sq |-> o.b[s + 1]], stm |-> o.stm, cast |-> ToSet(o.cast), ep |-> o.ep, len |-> o.len,
+                   wk |-> o.wk, bk |-> o.bk, h |-> o.h, sc |-> o.sc, kt |-> o.kt, cs |-> o.cs]
+       IN F(m = got, "DRIFT", "Engine.tla is out of step with the Game object after " \o what, Diff(m, got))
+
+Init == l = 1 /\ pos = NoPos /\ prev = NoObs /\ stk = << >> /\ recs = << >> /\ eng = NoEng
 
 ---------------------------------------------------------------------------
 New ==
@@ -94,13 +107,15 @@ New ==
                                               extra |-> ToSet(e.lg) \ LegalTexts(Normalize(pp))])
                                       ELSE {})
                                 \cup F("lgpanic" \notin DOMAIN e, "C17", "move generation panicked on an imported well-formed FEN", [fen |-> Str(e.fen)])
+                                \cup (IF op = pp THEN EngDrift([e |-> Eng!Load(pp), u |-> << >>, ok |-> TRUE], e.o, "import") ELSE {})
                            ELSE {}))
                 /\ pos' = op /\ prev' = e.o
+                /\ eng' = IF cls = "MustAccept" /\ op = pp THEN [e |-> Eng!Load(pp), u |-> << >>, ok |-> TRUE] ELSE NoEng
         ELSE /\ Report(F(cls # "MustAccept", "C17", "well-formed FEN of a sane position was refused",
                          [fen |-> Str(e.fen), err |-> e.err])
                        \cup F(~("panic" \in DOMAIN e /\ e.panic), "C17", "FEN import panicked",
                               [fen |-> Str(e.fen), class |-> cls, err |-> e.err]))
-             /\ pos' = NoPos /\ prev' = NoObs
+             /\ pos' = NoPos /\ prev' = NoObs /\ eng' = NoEng
   /\ stk' = << >> /\ recs' = << >> /\ l' = l + 1
 
 Push ==
@@ -112,14 +127,22 @@ Push ==
            THEN /\ Report(F(FALSE, "C01", "a generated move is not a geometrically valid move",
                             [fen |-> FenLine(pos), mv |-> e.mv]))
                 /\ recs' = IF e.hist THEN Append(recs, {}) ELSE recs
+                /\ eng' = NoEng
            ELSE LET m == CHOOSE m \in cands : TRUE
                     exp == Apply(pos, m)
                 IN /\ Report(
                         F(op = exp, "C02", "position after the move is not the prescribed one",
                           [from |-> FenLine(pos), mv |-> e.mv, want |-> FenLine(exp), got |-> FenLine(op)])
                         \cup RawJudge(e.o, "C02")
-                        \cup F(e.o.len = prev.len + 1, "DRIFT", "stack length", [x |-> e.o.len]))
+                        \cup F(e.o.len = prev.len + 1, "DRIFT", "stack length", [x |-> e.o.len])
+                        \cup (IF eng.ok
+                              THEN EngDrift([eng EXCEPT !.e = IF e.hist THEN Eng!PushHistory(eng.e, m) ELSE Eng!Push(eng.e, m)], e.o, "push " \o e.mv)
+                              ELSE {}))
                    /\ recs' = IF e.hist THEN Append(recs, RecTokens(pos, m)) ELSE recs
+                   /\ eng' = IF eng.ok /\ op = exp
+                             THEN [e |-> IF e.hist THEN Eng!PushHistory(eng.e, m) ELSE Eng!Push(eng.e, m),
+                                   u |-> Append(eng.u, [m |-> m, cap |-> pos.board[m.to]]), ok |-> TRUE]
+                             ELSE NoEng
         /\ pos' = op /\ prev' = e.o /\ stk' = Append(stk, prev)
   /\ l' = l + 1
 
@@ -129,8 +152,14 @@ Pop ==
          top == stk[Len(stk)]
      IN /\ Report(F(Obs3(e.o) = Obs3(top), "C03", "take-back did not restore the game",
                     [fen |-> FenLine(PosOf(top)), changed |-> Diff(Obs3(top), Obs3(e.o))])
-                  \cup F(e.o = top, "DRIFT", "take-back internals", [x |-> 0]))
+                  \cup F(e.o = top, "DRIFT", "take-back internals", [x |-> 0])
+                  \cup (IF eng.ok /\ eng.u # << >>
+                        THEN EngDrift([eng EXCEPT !.e = Eng!Pop(eng.e, eng.u[Len(eng.u)].m, eng.u[Len(eng.u)].cap)], e.o, "pop")
+                        ELSE {}))
         /\ pos' = PosOf(e.o) /\ prev' = e.o /\ stk' = SubSeq(stk, 1, Len(stk) - 1)
+        /\ eng' = IF eng.ok /\ eng.u # << >> /\ Obs3(e.o) = Obs3(top)
+                  THEN [e |-> Eng!Pop(eng.e, eng.u[Len(eng.u)].m, eng.u[Len(eng.u)].cap), u |-> SubSeq(eng.u, 1, Len(eng.u) - 1), ok |-> TRUE]
+                  ELSE NoEng
   /\ recs' = recs /\ l' = l + 1
 
 Query ==
@@ -180,7 +209,7 @@ Query ==
                 [] OTHER -> F(FALSE, "HARNESS", "unknown query", [what |-> e.what])
      IN Report(pure \cup J)
   /\ prev' = Rec[l].o /\ pos' = PosOf(Rec[l].o)
-  /\ UNCHANGED <<stk, recs>> /\ l' = l + 1
+  /\ UNCHANGED <<stk, recs, eng>> /\ l' = l + 1
 
 Reimp ==
   /\ IsEvent("reimp")
@@ -194,7 +223,7 @@ Reimp ==
                               [fen |-> FenLine(pos), got |-> ToSet(e.lg)])
                        ELSE {})
             ELSE F(FALSE, "C11", "exported FEN was refused on re-import", [fen |-> FenLine(pos), err |-> e.err]))
-  /\ UNCHANGED <<pos, prev, stk, recs>> /\ l' = l + 1
+  /\ UNCHANGED <<pos, prev, stk, recs, eng>> /\ l' = l + 1
 
 Mir ==
   /\ IsEvent("mir")
@@ -202,7 +231,7 @@ Mir ==
      Report(F(PosOf(e.o) = Mirror(pos), "HARNESS", "mirror twin out of step", [want |-> FenLine(Mirror(pos)), got |-> FenLine(PosOf(e.o))])
             \cup F(e.o.sc = 0 - prev.sc, "C16", "mirrored position does not have the negated score",
                    [fen |-> FenLine(pos), sc |-> prev.sc, mirror |-> e.o.sc]))
-  /\ UNCHANGED <<pos, prev, stk, recs>> /\ l' = l + 1
+  /\ UNCHANGED <<pos, prev, stk, recs, eng>> /\ l' = l + 1
 
 \* C05 (c): a single-feature variation of a position, imported by the real engine, hashes differently
 Var ==
@@ -218,7 +247,7 @@ Var ==
                        \cup F(pb # pv => e.b.h # e.v.h, "C05", "two different positions share a hash",
                               [base |-> Str(e.base), var |-> Str(e.var), hash |-> e.b.h])
                ELSE {})
-  /\ UNCHANGED <<pos, prev, stk, recs>> /\ l' = l + 1
+  /\ UNCHANGED <<pos, prev, stk, recs, eng>> /\ l' = l + 1
 
 \* C12 (b): `position fen F moves <prefix> s` + `show` on the real binary, for ALL strings s of move
 \* shape (64 x 64 squares x {"", q, r, b, n}); acc = the strings not answered with an error, each
@@ -254,21 +283,34 @@ PosMoves ==
                        F(x.fl = << >> \/ (Len(x.fl) >= 4 /\ Shown(x) = FenFields(p)), "C12",
                          "after refusing a move string the engine shows a different position", [fen |-> FenLine(p), shown |-> x.fl])
                      : i \in DOMAIN e.rej })
-  /\ UNCHANGED <<pos, prev, stk, recs>> /\ l' = l + 1
+  /\ UNCHANGED <<pos, prev, stk, recs, eng>> /\ l' = l + 1
+
+\* C05 (c'): all 16 x 9 combinations of castling rights and en-passant file on one board: pairwise distinct hashes
+States ==
+  /\ IsEvent("states")
+  /\ LET e == Rec[l]
+         ok == { i \in DOMAIN e.list : e.list[i][3].ok }
+         hs == { e.list[i][3].h : i \in ok }
+     IN Report(F(Cardinality(hs) = Cardinality(ok), "C05", "two positions differing only in castling rights / en-passant file share a hash",
+                 [base |-> Str(e.base), states |-> Cardinality(ok), hashes |-> Cardinality(hs),
+                  example |-> LET bad == { <<i, j>> \in ok \X ok : i < j /\ e.list[i][3].h = e.list[j][3].h } IN
+                              IF bad = {} THEN << >>
+                              ELSE LET p == CHOOSE p \in bad : TRUE IN << e.list[p[1]][1], e.list[p[1]][2], e.list[p[2]][1], e.list[p[2]][2] >>]))
+  /\ UNCHANGED <<pos, prev, stk, recs, eng>> /\ l' = l + 1
 
 \* C15: the board with the most generated moves a hill-climbing search over accepted FENs found
 Mob ==
   /\ IsEvent("mob")
   /\ Report(F(~Rec[l].panic /\ Rec[l].n <= 256, "C15", "an accepted position overflows the 256-entry move buffer",
               [fen |-> Str(Rec[l].fen), moves |-> Rec[l].n, msg |-> Rec[l].msg]))
-  /\ UNCHANGED <<pos, prev, stk, recs>> /\ l' = l + 1
+  /\ UNCHANGED <<pos, prev, stk, recs, eng>> /\ l' = l + 1
 
 Panic ==
   /\ IsEvent("panic")
   /\ Report(F(FALSE, "PANIC", "the engine panicked", [msg |-> Rec[l].msg, root |-> Rec[l].root]))
-  /\ pos' = NoPos /\ prev' = NoObs /\ stk' = << >> /\ recs' = << >> /\ l' = l + 1
+  /\ pos' = NoPos /\ prev' = NoObs /\ stk' = << >> /\ recs' = << >> /\ eng' = NoEng /\ l' = l + 1
 
-Next == New \/ Push \/ Pop \/ Query \/ Reimp \/ Mir \/ Var \/ PosMoves \/ Mob \/ Panic
+Next == New \/ Push \/ Pop \/ Query \/ Reimp \/ Mir \/ Var \/ PosMoves \/ States \/ Mob \/ Panic
 Spec == Init /\ [][Next]_vars
 
 \* every event consumed = one state per event plus the initial state
